@@ -296,7 +296,7 @@ def run(ctx):
         kw0['max_iter'] = 5
       ref = None
       for vname, arr in (('float64', base.copy()), ('int64', base.astype(np.int64)), ('int32', base.astype(np.int32)),
-                         ('float32', base.astype(np.float32)), ('fortran', np.asfortranarray(base))):
+                         ('fortran', np.asfortranarray(base))):
         kw = dict(kw0)
         kw[key] = arr
         with warnings.catch_warnings():
@@ -323,7 +323,26 @@ def run(ctx):
       if oc != 'ok' or not np.allclose(L.T.dot(L), Mi, rtol=1e-5, atol=1e-6):
         ctx.fail_input('array_dtype', 'components_from_metric on a PSD matrix of type %s: %s' % (vname, oc if oc != 'ok' else 'L^T L != M'),
                        dict(matrix=Mi.tolist(), dtype=vname))
-    # ---- 5. transformation initialisers
+      # ---- 4c. single-precision arrays: "PSD up to rounding" is relative to the type of the array
+    for rank in range(1, d):
+      Bf = rng.standard_normal((d, rank)).astype(np.float32)
+      Mf = Bf.dot(Bf.T)
+      Mf = ((Mf + Mf.T) / 2).astype(np.float32)
+      ev = np.linalg.eigvalsh(Mf.astype(float))
+      if ev[d - rank] < 1e-3 * ev[-1] or np.abs(ev[:d - rank]).max() > 1e-5 * ev[-1]:
+        continue                                      # rank not clear-cut in single precision
+      ctx.count('float32_psd', 1)
+      oc, L = outcome(lambda: components_from_metric(Mf.copy()))
+      if oc != 'ok' or not np.allclose(np.asarray(L, dtype=float).T.dot(L), Mf, rtol=0, atol=1e-4 * ev[-1]):
+        ctx.fail_input('array_dtype', 'float32 matrix that is PSD up to single-precision rounding: components_from_metric ' +
+                       (oc if oc != 'ok' else 'returns L with L^T L != M'), dict(matrix=Mf.tolist(), rank=rank))
+      oc, M = outcome(lambda: _initialize_metric_mahalanobis(inp_arr, Mf.copy(), strict_pd=False))
+      if oc != 'ok':
+        ctx.fail_input('array_dtype', 'float32 array that is PSD up to single-precision rounding rejected as init: ' + oc, dict(matrix=Mf.tolist(), rank=rank))
+      oc, M = outcome(lambda: _initialize_metric_mahalanobis(inp_arr, Mf.copy(), strict_pd=True))
+      if oc != 'LinAlgError':
+        ctx.fail_input('array_dtype', 'singular float32 array with strict_pd: expected LinAlgError, got ' + oc, dict(matrix=Mf.tolist(), rank=rank))
+  # ---- 5. transformation initialisers
     y = data['y']
     if rng.random() < 0.5:
       y = fits.encode_labels(rng, data)['y']        # the selection rule counts classes, whatever their names
